@@ -61,3 +61,41 @@ Theorem C06_new_tips_are_unbuilt :
 Proof. exact (new_tips_are_unbuilt NOTSTARTED). Qed.
 Print Assumptions C06_new_tips_are_unbuilt.
 
+
+(* ---- where the gate's settings come from (Model/JobSettings.v) ---------------------------------------------------
+   `nokey` and `bypass` above are read from job.settings: the job's own map over the instance's settings, the options
+   written with their defaults at the start of the evaluation.  An evaluation built without settings - what the
+   webhook handlers and the API evaluation build - reads `build_key` from the instance; whatever a creator passes
+   would take precedence for such a key (why the body of an API request must stay with the API job), but can never
+   switch an option such as bypass_build_status on. *)
+Require Import BertE.Model.JobSettings BertE.Proofs.JobSettingsProofs.
+
+Theorem C06_settings_bare_job_reads_instance : forall opts inst k,
+  ~ In k (map fst opts) -> jget k (init_settings opts (new_job None inst)) = sget k inst.
+Proof. exact bare_job_reads_instance. Qed.
+Print Assumptions C06_settings_bare_job_reads_instance.
+
+Theorem C06_settings_options_start_at_defaults : forall opts, NoDup (map fst opts) ->
+  forall s k d, In (k, d) opts -> jget k (init_settings opts s) = Some d.
+Proof. exact init_resets. Qed.
+Print Assumptions C06_settings_options_start_at_defaults.
+
+Theorem C06_settings_given_takes_precedence : forall opts inst body k v,
+  ~ In k (map fst opts) -> sget k body = Some v ->
+  jget k (init_settings opts (new_job (Some body) inst)) = Some v.
+Proof. exact given_takes_precedence. Qed.
+Print Assumptions C06_settings_given_takes_precedence.
+
+Theorem C06_settings_given_never_sets_an_option : forall opts inst body k d,
+  NoDup (map fst opts) -> In (k, d) opts ->
+  jget k (init_settings opts (new_job (Some body) inst)) = Some d.
+Proof. exact given_never_sets_an_option. Qed.
+Print Assumptions C06_settings_given_never_sets_an_option.
+
+Theorem C06_settings_example :
+  job_reads [("bypass_build_status"%string, 0); ("wait"%string, 0)] [("build_key"%string, 7); ("robot"%string, 8)]
+            (Some [("bypass_build_status"%string, 1); ("build_key"%string, 9)]) [("wait"%string, 1)]
+            ["bypass_build_status"%string; "wait"%string; "build_key"%string; "robot"%string; "unknown"%string]
+  = [Some 0; Some 1; Some 9; Some 8; None].
+Proof. exact job_reads_example. Qed.
+Print Assumptions C06_settings_example.
